@@ -41,6 +41,12 @@ StrideOK(c, i) ==
   c.nilbs \/ S(c)[i].q \/ ~NodeOK(c, NormSt(S(c)[i].from)) \/
   ObsStride(S(c)[i]) \in WalkStrideOutcomes(c.spec, NormSt(S(c)[i].from), PendingAt(c, i), Perm(c))
 
+\* whether a stride consumed the message at hand is part of the accounting: a message that a step used (a pattern was
+\* matched against it, a guard ran on the result) and that is reported as not consumed is offered again
+ConsumptionTruthful(c, i) ==
+  c.nilbs \/ S(c)[i].q \/ ~NodeOK(c, NormSt(S(c)[i].from)) \/
+  \E o \in WalkStrideOutcomes(c.spec, NormSt(S(c)[i].from), PendingAt(c, i), Perm(c)) : o.consumed = ObsStride(S(c)[i]).consumed
+
 C04Labels(c) ==
   IF Returned(c) /\ \E i \in DOMAIN S(c) : ~StrideOK(c, i) THEN {"stride-not-the-documented-step"} ELSE {}
 
@@ -50,6 +56,7 @@ Rest(c)  == IF Total(c) >= Len(c.msgs) THEN <<>> ELSE SubSeq(c.msgs, Total(c) + 
 C05Labels(c) ==
   IF ~Returned(c) THEN {} ELSE
   (IF Total(c) > Len(c.msgs) \/ ConsumedSeq(c) # SubSeq(c.msgs, 1, Total(c)) THEN {"consumption-out-of-order"} ELSE {})
+  \cup (IF \E i \in DOMAIN S(c) : ~ConsumptionTruthful(c, i) THEN {"consumption-misreported"} ELSE {})
   \cup (IF Len(S(c)) > Limit(c) /\ Limit(c) >= 0 THEN {"more-steps-than-limit"} ELSE {})
   \cup (IF c.out.stopped \in {"Limited", "BreakpointReached"} /\ c.out.remaining # Rest(c) THEN {"wrong-remainder"} ELSE {})
   \cup (IF c.out.stopped = "Limited" /\ Len(S(c)) # Limit(c) /\ Limit(c) >= 0 THEN {"limited-before-limit"} ELSE {})
